@@ -3,6 +3,7 @@ package parser
 
 import (
 	"slices"
+	"strconv"
 
 	c "github.com/paulsonkoly/calc/combinator"
 	"github.com/paulsonkoly/calc/lexer"
@@ -46,8 +47,25 @@ func acceptToken(str string) c.Parser {
 
 // The grammar ////////////////////////////////////////////////////////////////////////////////////////////////////////
 
-var intLit = acceptTerm(token.IntLit, "integer literal")
-var floatLit = acceptTerm(token.FloatLit, "float literal")
+// A number literal is only accepted if it fits the number type: tokenWrapper
+// has no way to report a literal it cannot convert.
+var intLit = c.Accept(func(tok c.Token) bool {
+	ctok := tok.(token.Type)
+	if ctok.Type != token.IntLit {
+		return false
+	}
+	_, err := strconv.Atoi(ctok.Value)
+	return err == nil
+}, "integer literal", tokenWrapper{})
+
+var floatLit = c.Accept(func(tok c.Token) bool {
+	ctok := tok.(token.Type)
+	if ctok.Type != token.FloatLit {
+		return false
+	}
+	_, err := strconv.ParseFloat(ctok.Value, 64)
+	return err == nil
+}, "float literal", tokenWrapper{})
 var stringLit = acceptTerm(token.StringLit, "string literal")
 
 func varName(input c.RollbackLexer) ([]c.Node, *Error) {
